@@ -119,7 +119,7 @@ class UnitGen:
                     if not pf or int(cn) not in pf[0].lifts:
                         raise S.SpecError('%s: lifted from %s closure %s, but the parent has no such lift' % (f.path, parent, cn))
                     l = pf[0].lifts[int(cn)]
-                    opts['lifted_from'] = {'fn': parent, 'closure': int(cn), 'params': l['params'], 'ret': l['ret'] or ''}
+                    opts['lifted_from'] = {'fn': parent, 'closure': int(cn), 'params': l['params'], 'ret': l['ret'] or '', 'parent_aliases': pf[0].aliases}
                     opts['sites'] = {str(k): v for k, v in list(pf[0].sites.items()) + list(f.sites.items())}
                     opts['lifts'] = {str(k): v for k, v in list(pf[0].lifts.items()) + list(f.lifts.items())}
                 items.append({'kind': 'fn', 'name': f.name, 'opts': opts, '_mod': mp})
@@ -476,7 +476,7 @@ class UnitGen:
                     t2 = t.replace('__vp_unwind !()', rep)
                     self.lines.append(Line(base + t2, kind='clause', fn=fnpath, clause=f.unwind.id, src=(file, l)))
                 continue
-            if '__vp_' in t.replace('__vp_scrut', '').replace('__vp_self', '').replace('__vp_s', '').replace('__vp_i', ''):
+            if '__vp_' in t.replace('__vp_scrut', '').replace('__vp_self', '').replace('__vp_eta', '').replace('__vp_s', '').replace('__vp_i', ''):
                 raise GenError('internal: unreplaced marker in %s: %s' % (fnpath, t))
             self.lines.append(Line(base + t, kind='body', fn=fnpath, src=(file, l)))
         for p in f.proofs:
